@@ -147,9 +147,30 @@ partial def dfs (fixed : Bool) (alpha : Array (Nat → Except String Op)) (k : N
     acc ← dfs fixed alpha (k + 1) (depth - 1) j' acc
   return acc
 
+/-- the clocked variant: a sent job (`born 1`, previous refresh at time 0), then status reads at
+the given integer times; read number i (0-based) is position i + 2 of the history -/
+def runClock (fixed : Bool) (delay : Int) (reads : Array Json) : Except String (Array String) := do
+  let mut t : TJob := ⟨born 1, 0⟩
+  let mut outs : Array String := #[]
+  let mut k := 2
+  for rd in reads do
+    let a ← rd.getArr?
+    let now ← (← arg a 0).getInt?
+    let r ← parseResp k (← arg a 1)
+    let (t', e, c) := readStatusAt fixed delay t now r
+    let o : Out := ⟨match e with | some e => .raised e | none => .st t'.job.status, c⟩
+    outs := outs.push (outStr t'.job o)
+    t := t'
+    k := k + 1
+  return outs
+
 def handleE (j : Json) : Except String Json := do
   let fixed ← boolOf j "fixed"
-  if let .ok ops := arrOf j "ops" then
+  if let .ok reads := arrOf j "clock" then
+    let delay ← intOf j "delay"
+    let outs ← runClock fixed delay reads
+    return Json.mkObj [("outs", Json.arr (outs.map Json.str))]
+  else if let .ok ops := arrOf j "ops" then
     let outs ← runOps fixed ops
     return Json.mkObj [("outs", Json.arr (outs.map Json.str))]
   else
